@@ -140,6 +140,9 @@ pub fn explore<M: Model>(m: &M, max_depth: usize, max_states: u64, rep: &Report)
     let mut exhaustive = true;
     while depth < max_depth && !frontier.is_empty() {
         let next: Mutex<Vec<(M::Sys, M::Ref, Vec<M::Op>)>> = Mutex::new(Vec::new());
+        // the states of the last level are checked and counted but not kept: nothing is expanded from them
+        let last_level = depth + 1 == max_depth;
+        let last_count = Counter::new();
         par_items(&frontier, |_w, (s, r, hist)| {
             let mut local_next = Vec::new();
             let mut local_ops: BTreeMap<String, u64> = BTreeMap::new();
@@ -165,7 +168,11 @@ pub fn explore<M: Model>(m: &M, max_depth: usize, max_states: u64, rep: &Report)
                     // keep exploring below a violating state: different violations may hide behind it
                 }
                 local_out.push(m.outcome(&s2, &r2));
-                local_next.push((s2, r2, h2));
+                if last_level {
+                    last_count.inc();
+                } else {
+                    local_next.push((s2, r2, h2));
+                }
             }
             next.lock().unwrap().extend(local_next);
             outcomes.lock().unwrap().extend(local_out);
@@ -178,7 +185,7 @@ pub fn explore<M: Model>(m: &M, max_depth: usize, max_states: u64, rep: &Report)
         // deterministic order regardless of thread scheduling
         nxt.sort_by_cached_key(|a| format!("{:?}", a.2));
         depth += 1;
-        level_sizes.push(nxt.len() as u64);
+        level_sizes.push(if last_level { last_count.get() } else { nxt.len() as u64 });
         frontier = nxt;
         if seen.lock().unwrap().len() as u64 > max_states {
             exhaustive = depth >= max_depth;
